@@ -16,11 +16,26 @@ use serde_json::{json, Value as J};
 use std::collections::{HashMap, VecDeque};
 use std::io::Write;
 
+/// One (state, call) edge of the dumped transition relation, compact: the dump of a 34 k-state pool is
+/// hundreds of megabytes of JSON, which must not be kept as serde values (eight shards run in parallel).
+#[derive(Clone, Copy)]
+enum Edge {
+    Any,                                  // DOM Level 1 prescribes no answer (-1 in the dump)
+    Fail(i64),                            // must fail; mask of the acceptable exception classes
+    Ok { t: usize, r: i64, e: i64 },      // may succeed: target state, returned node, mask of acceptable errors
+}
+
+impl Edge {
+    fn is_ok(&self) -> bool {
+        matches!(self, Edge::Ok { .. })
+    }
+}
+
 struct Graph {
     pool: J,
     calls: Vec<J>,
-    states: Vec<J>,            // {kids, attrs}
-    edges: Vec<Vec<J>>,        // per state, per call
+    keys: Vec<String>,         // canonical key of every state
+    edges: Vec<Vec<Edge>>,     // per state, per call
     index: HashMap<String, usize>,
     init: usize,
 }
@@ -45,24 +60,52 @@ fn load(path: &str) -> Graph {
     let mut g = Graph {
         pool: J::Null,
         calls: vec![],
-        states: vec![],
+        keys: vec![],
         edges: vec![],
         index: HashMap::new(),
         init: 0,
     };
     let mut init_state = J::Null;
+    // pass 1: the states
     for_each_case(path, |v| {
         if v.get("pool").is_some() {
             g.pool = v["pool"].clone();
             g.calls = v["calls"].as_array().cloned().unwrap_or_default();
             init_state = v["init"].clone();
         } else if v.get("edges").is_some() {
-            let s = v["s"].clone();
-            g.index.insert(key(&s), g.states.len());
-            g.states.push(s);
-            g.edges.push(v["edges"].as_array().cloned().unwrap_or_default());
+            let k = key(&v["s"]);
+            g.index.insert(k.clone(), g.keys.len());
+            g.keys.push(k);
         }
     });
+    // pass 2: the edges, with target states resolved to indices
+    let mut edges: Vec<Vec<Edge>> = vec![vec![]; g.keys.len()];
+    for_each_case(path, |v| {
+        if v.get("edges").is_some() {
+            let si = g.index[&key(&v["s"])];
+            edges[si] = v["edges"]
+                .as_array()
+                .map(|a| {
+                    a.iter()
+                        .map(|e| {
+                            if e.is_object() {
+                                Edge::Ok {
+                                    t: g.index.get(&key(&e["t"])).cloned().unwrap_or(usize::MAX),
+                                    r: e["r"].as_i64().unwrap_or(0),
+                                    e: e["e"].as_i64().unwrap_or(0),
+                                }
+                            } else if e.as_i64() == Some(-1) {
+                                Edge::Any
+                            } else {
+                                Edge::Fail(e.as_i64().unwrap_or(0))
+                            }
+                        })
+                        .collect()
+                })
+                .unwrap_or_default();
+        }
+    });
+    g.edges = edges;
     g.init = *g.index.get(&key(&init_state)).expect("initial state not in dump");
     g
 }
@@ -192,21 +235,25 @@ impl<'a> Judge<'a> {
     /// fast path; returns the graph index of the observed post state (if it is a state of the graph)
     fn step(&mut self, g: &Graph, w: &World, from: usize, ci: usize, pre: &J, outc: &J, post: &J) -> Option<usize> {
         self.steps += 1;
-        let e = &g.edges[from][ci];
+        let e = g.edges[from][ci];
         let mut ideal = false;
         let mut next = None;
         if let Some(err) = outc.get("err").and_then(|v| v.as_str()) {
-            let m = if e.is_object() { e["e"].as_i64().unwrap_or(0) } else { e.as_i64().unwrap_or(0) };
+            let m = match e {
+                Edge::Ok { e, .. } => e,
+                Edge::Fail(m) => m,
+                Edge::Any => -1,
+            };
             if m >= 0 && (m & mask_of(err)) != 0 && post == pre {
                 ideal = true;
             }
             if post == pre {
                 next = Some(from);
             }
-        } else if outc.get("ok").is_some() && e.is_object() {
-            let t = &e["t"];
-            if key(&state_of(post)) == key(t)
-                && outc["ok"].as_i64() == e["r"].as_i64()
+        } else if let (true, Edge::Ok { t, r, .. }) = (outc.get("ok").is_some(), e) {
+            if t != usize::MAX
+                && key(&state_of(post)) == g.keys[t]
+                && outc["ok"].as_i64() == Some(r)
                 && views_ok(w, post)
                 && order_ok(w, post)
             {
@@ -257,7 +304,7 @@ pub fn replay(args: &[String]) -> i32 {
     let mut j = Judge { out, residual: 0, steps: 0, seen: HashMap::new(), all: false, hist: vec![] };
 
     // BFS tree over successful edges
-    let ns = g.states.len();
+    let ns = g.keys.len();
     let mut parent: Vec<Option<(usize, usize)>> = vec![None; ns];
     let mut seen = vec![false; ns];
     let mut order = vec![];
@@ -277,13 +324,11 @@ pub fn replay(args: &[String]) -> i32 {
         while let Some(s) = q.pop_front() {
             visited_now.push(s);
             for (ci, e) in g.edges[s].iter().enumerate() {
-                if e.is_object() && (pass == 1 || e["e"].as_i64() == Some(0)) {
-                    if let Some(t) = g.index.get(&key(&e["t"])) {
-                        if !seen[*t] {
-                            seen[*t] = true;
-                            parent[*t] = Some((s, ci));
-                            q.push_back(*t);
-                        }
+                if let Edge::Ok { t, e, .. } = *e {
+                    if t != usize::MAX && (pass == 1 || e == 0) && !seen[t] {
+                        seen[t] = true;
+                        parent[t] = Some((s, ci));
+                        q.push_back(t);
                     }
                 }
             }
@@ -322,8 +367,11 @@ pub fn replay(args: &[String]) -> i32 {
                         return None;
                     }
                     let post = w.project();
-                    let t = &g.edges[*f][*ci]["t"];
-                    if key(&state_of(&post)) != key(t) {
+                    let ok = match g.edges[*f][*ci] {
+                        Edge::Ok { t, .. } => t != usize::MAX && key(&state_of(&post)) == g.keys[t],
+                        _ => false,
+                    };
+                    if !ok {
                         return None;
                     }
                 }
@@ -338,8 +386,8 @@ pub fn replay(args: &[String]) -> i32 {
             };
             let mut pre = w.project();
             for ci in 0..g.calls.len() {
-                let e = &g.edges[s][ci];
-                if e.as_i64() == Some(-1) {
+                let e = g.edges[s][ci];
+                if matches!(e, Edge::Any) {
                     continue;
                 }
                 heartbeat(|| json!({"event": "crash", "call": g.calls[ci], "calls": j.hist}).to_string());
@@ -347,7 +395,7 @@ pub fn replay(args: &[String]) -> i32 {
                 let post = w.project();
                 j.step(&g, &w, s, ci, &pre, &outc, &post);
                 edges_done += 1;
-                if e.is_object() {
+                if e.is_ok() {
                     ok_edges += 1;
                 }
                 if post != pre {
@@ -377,13 +425,13 @@ pub fn replay(args: &[String]) -> i32 {
         let mut pre = w.project();
         for _ in 0..walk_len {
             // prefer calls that may succeed half of the time (most calls fail)
-            let oks: Vec<usize> = (0..g.calls.len()).filter(|c| g.edges[cur][*c].is_object()).collect();
+            let oks: Vec<usize> = (0..g.calls.len()).filter(|c| g.edges[cur][*c].is_ok()).collect();
             let ci = if !oks.is_empty() && rng.gen_bool(0.6) {
                 oks[rng.gen_range(0..oks.len())]
             } else {
                 rng.gen_range(0..g.calls.len())
             };
-            if g.edges[cur][ci].as_i64() == Some(-1) {
+            if matches!(g.edges[cur][ci], Edge::Any) {
                 continue;
             }
             heartbeat(|| json!({"event": "crash", "call": g.calls[ci], "calls": j.hist}).to_string());
